@@ -146,6 +146,25 @@ def shard(ctx):
                 flush(ctx, batch.pop(di), di)
     for di, items in list(batch.items()):
         flush(ctx, items, di)
+    # ---------------------------------------------------------------- documented spellings with the literal on the LEFT of the comparison
+    # (docs/KNOWN_ISSUES.md: `2 > %no_of_instances`, `2 > count(Instances.*)`; docs/FUNCTIONS.md: `1 == %converted`)
+    if ctx.mine(0):
+        ldoc = json.dumps({"l": [1], "s": "1"})
+        for form, mirror in (("2 > %n", "%n < 2"), ("1 == %n", "%n == 1"), ("2 > count(l)", "%n < 2")):
+            a_ = "rule r {\n    let n = count(l)\n    %s\n}\n" % form
+            b_ = "rule r {\n    let n = count(l)\n    %s\n}\n" % mirror
+            sa_, _fa, ra_ = tool_statuses(ctx.w, a_, ldoc)
+            sb_, _fb, _rb = tool_statuses(ctx.w, b_, ldoc)
+            ctx.res.cases += 1
+            if sa_ == "crash" or sb_ == "crash":
+                ctx.inconclusive("crash (C08)")
+            elif sa_ == "parse-error" and isinstance(sb_, dict):
+                ctx.violation("documented-form:literal-on-the-left:rejected", "the documented spelling `%s` is rejected by the parser (its mirror image `%s` evaluates to %s): %s" % (
+                    form, mirror, sb_.get("r"), ra_.get("err", "")[:160]), {"rules": a_, "data": ldoc, "ast": None})
+            elif sa_ != sb_:
+                ctx.violation("documented-form:literal-on-the-left:verdict", "`%s` gives %s, `%s` gives %s" % (form, sa_, mirror, sb_), {"rules": a_, "data": ldoc, "ast": None})
+            else:
+                ctx.res.distinct.add(("literal-on-the-left", form))
     # ---------------------------------------------------------------- (B) random programs
     rng = ctx.rng("c01")
     n = 330 if ctx.quick else 60000
@@ -225,6 +244,9 @@ def flush(ctx, items, di):
 
 
 def replay(case, w):
+    if case.get("ast") is None:
+        st, fs, res = tool_statuses(w, case["rules"], case["data"])
+        return isinstance(st, dict), "the documented form %s" % ("evaluates" if isinstance(st, dict) else "is rejected: " + str(st))
     f = case["ast"]
     doc = json.loads(case["data"])
     ref, rfs = refint.Interp(f, doc).run()
